@@ -222,9 +222,29 @@ Proof. apply (export_import_equal lo hi sig SH _ reach_wf). Qed.
 Lemma reach_merge_into_empty_equal :
   exists t', merge h0 (run_hops h0 ops) = Ok (t', 0) /\ equals t' (run_hops h0 ops) = Ok true /\
              total_count t' = total_count (run_hops h0 ops).
-Proof. apply (merge_into_empty_equal lo hi sig SH _ reach_wf h0 N0). Qed.
+Proof. apply (merge_into_empty_equal lo hi sig SH _ h0 reach_wf N0). Qed.
 
 End Reach.
+
+(* ---- WindowedHistogram.Merge over windows that are reachable histograms of the same shape *)
+Definition ops_ok (ops : list hop) : Prop := ops_nonneg ops /\ ops_weight ops < 2 ^ 63.
+
+Lemma window_merge_total (idx : Z) (opss : list (list hop)) (mops : list hop) :
+  Forall ops_ok opss -> ops_ok mops -> sum_totals (map (run_hops h0) opss) < 2 ^ 63 ->
+  exists w', w_merge (mkW idx (map (run_hops h0) opss) (run_hops h0 mops)) = Ok w' /\
+             w_h w' = map (run_hops h0) opss /\ w_idx w' = idx /\
+             h_total (w_m w') = sum_totals (map (run_hops h0) opss) /\
+             (forall i, h_counts (w_m w') i = sum_counts (map (run_hops h0) opss) i).
+Proof.
+  intros Hs [Mn Mw] Sm. unfold w_merge. cbn [w_h w_m w_idx].
+  assert (Wl : Forall (wf lo hi sig) (map (run_hops h0) opss)).
+  { apply Forall_map. eapply Forall_impl; [|exact Hs]. intros ops [A B]. apply reach_wf; assumption. }
+  destruct (reset_wf lo hi sig _ (reach_wf mops Mn Mw)) as [Wm Tm].
+  destruct (w_merge_all_spec lo hi sig _ _ Wl Wm ltac:(lia)) as (m' & E & W' & T' & C').
+  rewrite E. eexists. split; [reflexivity|]. cbn [w_h w_m w_idx].
+  split; [reflexivity|]. split; [reflexivity|]. split; [lia|].
+  intros i. rewrite C'. unfold reset. cbn [h_counts]. lia.
+Qed.
 
 (* ---- recorded data *)
 Section Recorded.
@@ -311,3 +331,14 @@ Example ops_example :
   end.
 Proof. split; [repeat constructor; lia|]. vm_compute. split; reflexivity. Qed.
 
+
+Example window_example :
+  match new_hist 1 2048 3 with
+  | Ok h0 =>
+      match w_merge (mkW 0 [run_hops h0 [HRecord 5 2]; run_hops h0 [HRecord 2048 1; HRecord 7 4]] (run_hops h0 [HRecord 9 9])) with
+      | Ok w' => (h_total (w_m w'), h_counts (w_m w') 5, hist_max (w_m w')) = (7, 2, Ok 2049)
+      | _ => False
+      end
+  | _ => False
+  end.
+Proof. vm_compute. reflexivity. Qed.
